@@ -164,6 +164,8 @@ def conditions(tier, seed, active):
                                 tags=["errors"], witness=[]))
         if d == 7 or not quick:
             for p0 in range(3):
-                out.append(dict(id="three/ref/d%d/steps3/first%d" % (d, p0), module=__name__, factory="cube",
-                                params=dict(d=d, collide="ref", steps=3, prefix=[p0], third=True), timeout=1500 if quick else 3600, tags=["errors"], witness=[]))
+                for p1 in range(3):
+                    out.append(dict(id="three/ref/d%d/steps3/first%d%d" % (d, p0, p1), module=__name__, factory="cube",
+                                    params=dict(d=d, collide="ref", steps=3, prefix=[p0, p1], third=True), timeout=1500 if quick else 3600,
+                                    tags=["errors"], witness=[]))
     return out
